@@ -42,8 +42,8 @@ def lu(u):
     A.fmt = ["coo", "csr", "csc"][u.path.choose_n(3, "sparse format of the matrix")]
     calls = []
 
-    def splu(it, mat):
-        calls.append(("splu", mat))
+    def splu(it, mat, **kw):
+        calls.append(("splu", mat, kw))
         if it.path.choose("splu raises RuntimeError (singular)"):
             raise PyRaise(ExcVal(RuntimeError, ("Factor is exactly singular",)), origin="scipy.sparse.linalg.splu")
         f = Obj(None, {}, tag="SuperLU")
@@ -51,7 +51,14 @@ def lu(u):
         return f
 
     u.it.lib["scipy.sparse.linalg.splu"] = splu
-    kind, val = u.raised(lambda: u.construct(LS + "lu_solver.LUSolver", A))
+    sym = u.path.choose("symmetric=True")
+    kind, val = u.raised(lambda: u.construct(LS + "lu_solver.LUSolver", A, symmetric=sym) if sym else u.construct(LS + "lu_solver.LUSolver", A))
+    # the ASSUMED SuperLU contract (backward error at rounding level, RuntimeError iff singular) is the one of the
+    # default threshold partial pivoting: a column-ordering choice is harmless, anything that weakens pivoting
+    # (diag_pivot_thresh < 1, SymmetricMode, ILU options) is a different routine with a different guarantee
+    skw = calls[0][2] if calls else {}
+    thr = skw.get("diag_pivot_thresh")
+    u.ensure(set(skw) <= {"permc_spec", "diag_pivot_thresh"} and (thr is None or (isinstance(thr, (int, float)) and thr >= 1.0)), "init:factorisation_called_only_with_options_the_assumed_library_contract_covers", desc=f"splu keywords {sorted(skw)}" + (f", diag_pivot_thresh={thr}" if thr is not None else ""))
     if kind == "raise":
         u.ensure(val.exc.name() == "LinearSolverError", "init:raises_only{LinearSolverError}", desc=f"escaping {val.exc!r}")
         return
